@@ -589,4 +589,22 @@ def handle_hook(world, interp, name, args, t, body):
                 return ('node', a0[2])
             if seg in ('as_u64', 'counter', 'seconds', 'fractional'):
                 return ('int', None)
+            if seg in ('datacake_timestamp', 'unix_timestamp'):
+                return ('opaque', 'time-of-stamp')
+    # the handle may look at the wall clock or at shared counters before it decides (a pre-check, a "newest seen so far" mark): unknown
+    # values — every decision taken on them is explored both ways
+    if name.startswith('datacake_crdt::') and seg in ('get_datacake_timestamp', 'get_unix_timestamp_ms', 'get_unix_timestamp'):
+        return ('opaque', 'wall-clock')
+    if name.startswith('std::time::SystemTime::') or name.startswith('std::time::Instant::'):
+        return ('opaque', 'wall-clock')
+    if ('atomic::Atomic' in name or name.startswith('core::sync::atomic::')) and not t['dest']['p']:
+        ty = body.local_ty(t['dest']['l'])
+        return ('bool', None) if ty == 'bool' else UNIT if ty == '()' else ('int', None) if ty in absint.INT_WIDTH else ('opaque', 'atomic-result')
+    if name.startswith('core::time::Duration::') and not t['dest']['p']:
+        ty = body.local_ty(t['dest']['l'])
+        return ('bool', None) if ty == 'bool' else ('opaque', 'duration')
+    if seg in ('gt', 'ge', 'lt', 'le', 'eq', 'ne') and len(args) == 2:
+        a, b = interp.deref_all(args[0]), interp.deref_all(args[1])
+        if any(x is not None and x[0] == 'opaque' and str(x[1]) in ('duration', 'wall-clock', 'time-of-stamp', 'atomic-result') for x in (a, b)):
+            return ('bool', None)
     return None
